@@ -5,6 +5,7 @@ translate /repo -> coq/Gen  ->  make Props/<ID>.vo  ->  Print Assumptions  ->  c
 -> evidence/<ID>.json, VIOLATION / KNOWN-FINDING lines, exit code.
 """
 import argparse
+import glob
 import importlib
 import json
 import os
@@ -27,8 +28,16 @@ def main():
     t0 = time.time()
     mod = importlib.import_module('props.' + pid.lower())
 
+    replaying = None
     if a.replay:
-        sys.exit(mod.replay(json.load(open(a.replay))))
+        # a replay is the same deterministic exploration (same seed and tier), reporting only the recorded violation
+        replaying = json.load(open(a.replay))
+        seed, a.tier = int(replaying.get('seed', seed)), replaying.get('tier', a.tier)
+        if hasattr(mod, 'replay'):
+            sys.exit(mod.replay(replaying))
+    else:
+        for f in glob.glob(os.path.join(lib.VERIF, 'replays', f'{pid}-*.json')):
+            os.remove(f)
 
     violations = []     # dicts: {signature, what, replay-object}
     proof = {'translated': False, 'built': False, 'assumptions_ok': False}
@@ -73,6 +82,10 @@ def main():
             if ctx['reference_model']:
                 lib.translate()
     violations += res.get('violations', [])
+    if replaying is not None and not replaying.get('no_failing_input_found'):
+        same = [v for v in violations if v['signature'] == replaying['signature'] and v.get('case') == replaying.get('case')]
+        violations = same or [v for v in violations if v['signature'] == replaying['signature']]
+        print(f'replay of {a.replay}: ' + ('REPRODUCED' if violations else 'not reproduced'))
 
     known = lib.load_known()
     lines, n_viol, n_known = [], 0, 0
@@ -86,7 +99,7 @@ def main():
         k += 1
         path = lib.write_replay(pid, k, {'property': pid, 'signature': v['signature'], 'what': v['what'], 'case': v.get('case'),
                                          'expected': v.get('expected'), 'observed': v.get('observed'),
-                                         'broken_obligations': broken,
+                                         'broken_obligations': broken, 'seed': seed, 'tier': a.tier,
                                          'rerun': f'./bin/check {pid} --replay <this file>'})
         lines.append(f'VIOLATION property={pid} replay={path}')
         n_viol += 1
@@ -100,7 +113,7 @@ def main():
             lines.append(f'KNOWN-FINDING: property={pid} {match["id"]} {match["what"]}')
     # 2. a proof obligation or a tie that no longer checks, and no failing input was found
     if broken and n_viol == 0:
-        path = lib.write_replay(pid, 'proof', {'property': pid, 'no_failing_input_found': True, 'broken_obligations': broken,
+        path = lib.write_replay(pid, 'proof', {'property': pid, 'no_failing_input_found': True, 'broken_obligations': broken, 'seed': seed, 'tier': a.tier,
                                                'searched': res.get('rule', '')})
         lines.append(f'VIOLATION property={pid} replay={path} no-failing-input-found')
         n_viol += 1
@@ -131,7 +144,8 @@ def main():
         'violations': n_viol,
     }
     ev['coverage']['obligations'] = len(thms)
-    lib.write_evidence(pid, ev)
+    if replaying is None:
+        lib.write_evidence(pid, ev)
     for l in lines:
         print(l)
     print(f'[{pid}] tier={a.tier} seed={seed} theorems={len(blocks)}/{len(thms)} cases={res.get("evaluations", 0)} '
